@@ -21,16 +21,19 @@ import (
 
 // Case is one line of the plan TLC emitted (MC_DeadlinePlan): times in ms.
 type Case struct {
-	ID    int    `json:"id"`
-	Label string `json:"label"` // blocked | early | boundary | grace  (intended class, informational)
-	D     int64  `json:"D"`
-	X     int64  `json:"x"`     // the child leaves on its own at t0 + x (-1: never)
-	OnInt string `json:"onint"` // die | ignore
-	OK    bool   `json:"ok"`
-	Neg   bool   `json:"neg"`
-	After int64  `json:"after"` // > 0: second script of a sequential RunT call whose first script leaves at t0 + after
-	Ign   bool   `json:"ign"`   // run by a driver that ignores SIGQUIT itself (children start out ignoring it); informational
-	Via   string `json:"via"`   // "run": through testscript.Run with a real *testing.T (informational: the whole driver runs in that mode)
+	ID     int    `json:"id"`
+	Label  string `json:"label"` // blocked | early | boundary | grace  (intended class, informational)
+	D      int64  `json:"D"`
+	X      int64  `json:"x"`     // the child leaves on its own at t0 + x (-1: never)
+	OnInt  string `json:"onint"` // die | ignore
+	OK     bool   `json:"ok"`
+	Neg    bool   `json:"neg"`
+	After  int64  `json:"after"`  // > 0: second script of a sequential RunT call whose first script leaves at t0 + after
+	Custom bool   `json:"custom"` // the program is run by a custom command through TestScript.Exec, not by the exec command
+	Coe    bool   `json:"coe"`    // ContinueOnError: the script's first line is another blocked command, the case is its second line (it starts when the first was stopped, at `after`)
+	Bg     bool   `json:"bg"`     // a background command that ignores SIGQUIT (but not SIGINT) runs beside the case's command
+	Ign    bool   `json:"ign"`    // run by a driver that ignores SIGQUIT itself (children start out ignoring it); informational
+	Via    string `json:"via"`    // "run": through testscript.Run with a real *testing.T (informational: the whole driver runs in that mode)
 }
 
 // Obs is one observation, the record DeadlineL1 judges (field names as in the spec).
@@ -45,6 +48,10 @@ type Obs struct {
 	After    int64  `json:"after"`
 	Via      string `json:"via"`
 	Ign      bool   `json:"ign"`
+	Custom   bool   `json:"custom"`
+	Coe      bool   `json:"coe"`
+	Bg       bool   `json:"bg"`
+	PrevEnd  int64  `json:"prevend"` // last sign of life of what ran in front of a late starter (-1: nothing did)
 	Start    int64  `json:"start"`
 	Sig      int64  `json:"sig"`
 	SelfExit int64  `json:"selfexit"`
@@ -396,10 +403,21 @@ func runGroup(g group, self, work string, col *collector, jm *jitterMon, spawnMa
 		if !c.OK {
 			status = 1
 		}
-		line := fmt.Sprintf("exec %s child -sock %s -id %d -x %d -onint %s -status %d\n",
-			self, col.path, c.ID, c.X, c.OnInt, status)
+		verb := "exec"
+		if c.Custom {
+			verb = "cexec"
+		}
+		line := fmt.Sprintf("%s %s child -sock %s -id %d -x %d -onint %s -status %d\n",
+			verb, self, col.path, c.ID, c.X, c.OnInt, status)
 		if c.Neg {
 			line = "! " + line
+		}
+		if c.Coe {
+			// (ContinueOnError) a blocked command in front, stopped when the interrupt is due: the case's command starts then
+			line = fmt.Sprintf("exec %s child -sock %s -id %d -x -1 -onint die -status 0\n", self, col.path, 1000000+c.ID) + line
+		}
+		if c.Bg {
+			line = fmt.Sprintf("exec %s child -sock %s -id %d -x -1 -onint quitonly -status 0 &\n", self, col.path, 2000000+c.ID) + line
 		}
 		p := filepath.Join(dir, names[i]+".txt")
 		if err := os.WriteFile(p, []byte(line), 0o644); err != nil {
@@ -407,11 +425,13 @@ func runGroup(g group, self, work string, col *collector, jm *jitterMon, spawnMa
 		}
 		files = append(files, p)
 	}
-	root := &rootT{subs: map[string]*subT{}, seq: g.after > 0}
+	root := &rootT{subs: map[string]*subT{}, seq: g.after > 0 && !g.cases[0].Coe}
 	root.subT.root = root
 	runFiles := files
 	predID := 0
-	if g.after > 0 {
+	if g.cases[0].Coe {
+		predID = 1000000 + g.cases[0].ID
+	} else if g.after > 0 {
 		predID = 1000000 + g.cases[0].ID
 		p := filepath.Join(dir, fmt.Sprintf("a%d.txt", g.cases[0].ID))
 		// the script in front leaves on its own at `after`; when that is later than the interrupt it has to sit the
@@ -436,6 +456,9 @@ func runGroup(g group, self, work string, col *collector, jm *jitterMon, spawnMa
 	if predID != 0 {
 		col.t0[predID] = t0
 	}
+	if g.cases[0].Bg {
+		col.t0[2000000+g.cases[0].ID] = t0
+	}
 	col.mu.Unlock()
 	deadline := time.Now().Add(time.Duration(g.D)*time.Millisecond - time.Duration(monoUS()-t0)*time.Microsecond)
 	runTdone := make(chan struct{})
@@ -451,7 +474,7 @@ func runGroup(g group, self, work string, col *collector, jm *jitterMon, spawnMa
 			viaRun(root, g, runFiles, deadline)
 			return
 		}
-		testscript.RunT(root, testscript.Params{Files: runFiles, Deadline: deadline})
+		testscript.RunT(root, testscript.Params{Files: runFiles, Deadline: deadline, ContinueOnError: g.cases[0].Coe, Cmds: customCmds})
 	}()
 	allDone := make(chan struct{})
 	go func() {
@@ -495,16 +518,35 @@ func runGroup(g group, self, work string, col *collector, jm *jitterMon, spawnMa
 			break
 		}
 	}
+	prevEnd := int64(-1)
+	if predID != 0 {
+		if pl := col.get(predID); pl.selfexit >= 0 {
+			prevEnd = pl.selfexit
+		} else {
+			prevEnd = pl.last
+		}
+	}
+	bgAlive := false
+	if g.cases[0].Bg {
+		if bl := col.get(2000000 + g.cases[0].ID); bl.pid > 0 && stillOurs(bl.pid, col.path, 2000000+g.cases[0].ID) {
+			bgAlive = true
+			syscall.Kill(bl.pid, syscall.SIGKILL)
+		}
+	}
 	for i, c := range g.cases {
 		cl := col.get(c.ID)
 		root.mu.Lock()
 		st := root.subs[names[i]]
 		root.mu.Unlock()
-		o := Obs{ID: c.ID, Label: c.Label, D: g.D, X: c.X, OnInt: c.OnInt, OK: c.OK, Neg: c.Neg, After: c.After, Via: c.Via, Ign: c.Ign,
+		o := Obs{ID: c.ID, Label: c.Label, D: g.D, X: c.X, OnInt: c.OnInt, OK: c.OK, Neg: c.Neg, After: c.After, Via: c.Via, Ign: c.Ign, Custom: c.Custom, Coe: c.Coe, Bg: c.Bg, PrevEnd: prevEnd,
 			Start: cl.start, Sig: cl.sig, SelfExit: cl.selfexit, Last: cl.last, RunDone: rel(runDone),
 			SRun: srun, Gap: cl.gap, Beats: cl.beats, CLog: cl.raw, SigName: cl.signame, Pid: cl.pid, Group: g.id, Verdict: "none", Msg: "none", Done: -1}
 		if o.SigName == "" {
 			o.SigName = "-"
+		}
+		if bgAlive {
+			o.Alive = true
+			res.Count("children_alive_after_run", 1)
 		}
 		if cl.pid > 0 && stillOurs(cl.pid, col.path, c.ID) {
 			o.Alive = true
@@ -611,7 +653,7 @@ func runMain(plan, traces, out, work string, par, groupSize, smin, stagger int) 
 	byD := map[int64][]Case{}
 	var groups []group
 	for _, c := range cases {
-		if c.After > 0 {
+		if c.After > 0 || c.Coe || c.Bg {
 			groups = append(groups, group{D: c.D, cases: []Case{c}, after: c.After})
 			res.Count("late_starting_scripts", 1)
 			continue
@@ -666,4 +708,20 @@ func runMain(plan, traces, out, work string, par, groupSize, smin, stagger int) 
 	res.Extra["max_sleep_overshoot_ms"] = jm.maxOver(0, monoUS())
 	res.Extra["spawn_baseline_max_ms"] = spawnMax
 	res.Write(out)
+}
+
+// customCmds: cexec runs a program the way custom commands do, through TestScript.Exec.
+var customCmds = map[string]func(ts *testscript.TestScript, neg bool, args []string){
+	"cexec": func(ts *testscript.TestScript, neg bool, args []string) {
+		if len(args) < 1 {
+			ts.Fatalf("usage: cexec program [args...]")
+		}
+		err := ts.Exec(args[0], args[1:]...)
+		if err != nil && !neg {
+			ts.Fatalf("cexec: %v", err)
+		}
+		if err == nil && neg {
+			ts.Fatalf("cexec: unexpected command success")
+		}
+	},
 }
